@@ -276,8 +276,11 @@ func checkC13(c *fw.Ctx) {
 	// the verified request
 	for f, want := range map[string]string{"ServerName": ".Origin(", "AtTS": "gmsl/spec.AsTimestamp(param:now)", "Message": "encoding/json.Marshal(", "ValidityCheckingFunc": "func:gmsl.StrictValiditySignatureCheck"} {
 		stores := fw.FieldStores(verify, "VerifyJSONRequest", f)
-		ok := len(stores) == 1 && strings.Contains(fw.Sig(stores[0].Val), want)
-		c.Check(ok, rule, "the verification request's "+f+" is "+strings.Trim(want, ".("), c.P.Pos(verify.Pos()), "", fmt.Sprintf("%d stores / value mismatch", len(stores)))
+		if len(stores) != 1 {
+			c.Undecided(rule, "the verification request's "+f+" is "+strings.Trim(want, ".("), fmt.Sprintf("%d stores to the field in VerifyHTTPRequest itself", len(stores)))
+			continue
+		}
+		c.Check(strings.Contains(fw.Sig(stores[0].Val), want), rule, "the verification request's "+f+" is "+strings.Trim(want, ".("), c.P.Pos(verify.Pos()), "", "the field is set to "+fw.Sig(stores[0].Val))
 	}
 	// the destination that is checked is the destination that is verified (the reconstructed
 	// field), not a second reading of the header: with several Authorization headers the two differ
